@@ -10,7 +10,7 @@
    Memory model: sequential consistency (interleaving of atomic steps); skiplist insert / seek are
    atomic steps here (their own concurrency is C17). *)
 From Coq Require Import NArith List PArith.
-From Blue Require Import Lsm.Model Lsm.History.
+From Blue Require Import Gen.Const_Conc Lsm.Model Lsm.History.
 From Blue Require Import Conc.KvsConc Conc.Spec Conc.ProofsSkel Conc.ProofsData Conc.ProofsSim Conc.ProofsTop Conc.ProofsHist.
 Import ListNotations.
 Open Scope N_scope.
@@ -210,6 +210,11 @@ Definition torn_trace : list label := [
 Theorem C06_batch_atomic_refuted_before_repair :
   exists ls, run_unrepaired (init 2 1 0) ls <> None /\ srun sinit ls = None /\ run (init 2 1 0) ls = None.
 Proof. exists torn_trace. vm_compute. repeat split; discriminate. Qed.
+
+(* the model takes WaitList::link as never blocking: the ring (re-extracted from sync42/src/lib.rs on
+   every run) has room for this many linked waiters, i.e. writers in flight *)
+Example wait_list_ring_has_room : 1 < CONC_MAX_CONCURRENCY.
+Proof. vm_compute. reflexivity. Qed.
 
 (* ---- non-vacuity: a concrete schedule with a batch, a torn-looking moment (scan while one of two
    entries is inserted: sees neither), a rollover requested by the writer, the flush thread's
